@@ -159,7 +159,7 @@ def scripted_sampler(script, n_blocks, ad, n_walkers):
     return s
 
 
-def run_scripted(chk: Check, req, name, seed=0, timeout=300.0):
+def run_scripted(chk: Check, req, name, seed=0, timeout=900.0):
     """the real driver.afqmc on req['R'] thread ranks with the scripted samplers; returns what it wrote / returned"""
     from ad_afqmc import driver
     R, nblk, ad = req["R"], req["nblk"], req["ad"]
@@ -415,7 +415,7 @@ class RecComm:
         return out
 
 
-def record_run(chk: Check, R, mk_system, options, block, n_blocks, observable, name, timeout=300.0):
+def record_run(chk: Check, R, mk_system, options, block, n_blocks, observable, name, timeout=900.0):
     """a REAL run of driver.afqmc (real sampler, proxied for observation) on R thread ranks with rank 0's bookkeeping
     calls recorded in program order.  returns dict(logs per rank, ad observations per rank, proxy events, results)"""
     import jax
